@@ -162,7 +162,12 @@ def gen_tasks(tier, seed):
             if cls in ("kMinPathError", "kLeastAbsErrors") and len(G) > 2:
                 # error scale 0 / 0.5 on a node (scale 0 = ignored, also for the covering number that k=None resolves to)
                 k_all = None
-                for v_ in list(G.nodes())[: (3 if tier == "quick" else 6)]:
+                # first the nodes whose removal from the demand lowers the node covering number (then k=None must resolve differently)
+                cb_ = {"cyc": False, "starts": [], "ends": [], "constraints": [], "node_mode": True, "edges": es}
+                k_all_ = c09.reference_min_k({**cb_, "ignored": []}, G, 4)[0]
+                better_ = [v for v in G.nodes() if (c09.reference_min_k({**cb_, "ignored": [v]}, G, 4)[0] or 9) < (k_all_ or 0)]
+                order_ = better_ + [v for v in G.nodes() if v not in better_]
+                for v_ in order_[: (3 if tier == "quick" else 6)]:
                     if not any(x for y, x in nf.items() if y != v_ and x):
                         continue
                     for sc in (0, 0.5):
